@@ -156,11 +156,13 @@ KeyShortcut(i, v) ==
   /\ root' = "{\n  @t: " \o ScalarCat[v].text \o "\n}"
   /\ typ' = KeyStrings[i] /\ expect' = "accept"
 
-\* a key shortcut next to a literal key that is spelled like the example of the shortcut's type, in either order: both
-\* are properties of the object (the literal one is required and keeps its own value kind)
+\* a key shortcut followed by a literal key that is spelled like the example of the shortcut's type: both are
+\* properties of the object (the literal one is required and keeps its own value kind).  The example then has the name
+\* twice; a reader that lets the last one win sees the literal property.  (The other order is left out: what an
+\* example with a duplicated name means when the shortcut's value comes last is not settled by the statement.)
 KeyShortcutTwin(i, first) ==
   /\ stage = "start" /\ fam' = "keyshortcut-twin" /\ stage' = "done" /\ list' = <<>>
-  /\ i \in {1, 4, 7}
+  /\ i \in {1, 4, 7} /\ first
   /\ root' = IF first THEN "{\n  @t: 1,\n  " \o KeyStrings[i] \o ": \"x\"\n}"
                        ELSE "{\n  " \o KeyStrings[i] \o ": \"x\",\n  @t: 1\n}"
   /\ typ' = KeyStrings[i] /\ expect' = "unknown"
